@@ -121,6 +121,8 @@ pub fn run(arg: &str) -> (bool, String) {
         "c07" => c07(),
         "c11" => c11(),
         "c09" => c09(),
+        "c09-enabled" => c09_enabled(false),
+        "c09-enabled-no-prf" => c09_enabled(true),
         "c17" => c17(),
         _ => (false, format!("unknown scenario {arg}")),
     }
@@ -485,4 +487,52 @@ pub fn shipped_store(arg: &str) -> (bool, String) {
             (false, "in-memory store follows the lookup contract on the probes".into())
         }
     }
+}
+
+/// C09: "registration reports "enabled" exactly when secrets were stored with the new credential", both directions, over the
+/// authenticator configurations and every shape of the registration's extension request.
+/// `without_prf`: only the registrations that ask for hmac-secret without prf (known finding D18); otherwise all the others.
+fn c09_enabled(without_prf: bool) -> (bool, String) {
+    use passkey_authenticator::extensions::HmacSecretConfig;
+    use passkey_types::ctap2::extensions::{AuthenticatorPrfInputs, AuthenticatorPrfValues};
+    let mut n = 0;
+    for cfg in 0..5 {   // 0: extension off, 1: uv-only, 2: with ungated secret, 3 / 4: the same two with evaluation at creation
+        for hs in [None, Some(true), Some(false)] {
+            for prf in 0..3 {   // absent, empty, with inputs
+                for uv in [true, false] {
+                    if without_prf != (hs == Some(true) && prf == 0) { continue; }
+                    n += 1;
+                    let store = RefStore::new(2);
+                    let a = Authenticator::new(Aaguid::new_empty(), store.clone(), Uv { capability: Some(true), report: Ok((true, uv)), shown: Default::default() });
+                    let mut a = match cfg {
+                        0 => a,
+                        1 => a.hmac_secret(HmacSecretConfig::new_with_uv_only()),
+                        2 => a.hmac_secret(HmacSecretConfig::new_without_uv()),
+                        3 => a.hmac_secret(HmacSecretConfig::new_with_uv_only().enable_on_make_credential()),
+                        _ => a.hmac_secret(HmacSecretConfig::new_without_uv().enable_on_make_credential()),
+                    };
+                    let mut req = mc_request("a.example", true, true, uv, None);
+                    let prf_in = match prf {
+                        0 => None,
+                        1 => Some(AuthenticatorPrfInputs { eval: None, eval_by_credential: None }),
+                        _ => Some(AuthenticatorPrfInputs { eval: Some(AuthenticatorPrfValues { first: [1; 32], second: None }), eval_by_credential: None }),
+                    };
+                    req.extensions = Some(make_credential::ExtensionInputs { hmac_secret: hs, hmac_secret_mc: None, prf: prf_in });
+                    let ctx = format!("config {cfg}, request hmac-secret={hs:?} prf shape {prf}, user verified={uv}");
+                    let Ok(resp) = block_on(a.make_credential(req)) else { continue };
+                    let items = store.items.lock().unwrap();
+                    let Some(pk) = items.last() else { return (true, format!("{ctx}: success without a stored credential")) };
+                    let stored = pk.extensions.hmac_secret.is_some();
+                    let enabled = resp.unsigned_extension_outputs.as_ref().and_then(|o| o.prf.as_ref()).map(|p| p.enabled).unwrap_or(false);
+                    if stored != enabled {
+                        return (true, format!("{ctx}: secrets stored with the new credential = {stored}, \"enabled\" reported = {enabled}"));
+                    }
+                    if cfg == 0 && (stored || resp.unsigned_extension_outputs.is_some()) {
+                        return (true, format!("{ctx}: an authenticator without the capability stored a secret or produced an output"));
+                    }
+                }
+            }
+        }
+    }
+    (false, format!("\"enabled\" reported exactly when secrets were stored in {n} registrations"))
 }
